@@ -109,6 +109,22 @@ CLAIMS = {
                 'transcribed from doc/dbus-specification.xml (Authentication state diagrams, Server states).',
         'design': 'DESIGN.md section 3, C08',
     },
+    'C07': {
+        'technique': 'static analysis: flag-by-site coverage table (setter / matcher / equality / destructor) '
+                     'over dominator regions guarded by `flags & K`, must-pass-through of validators and '
+                     '"specified twice" tests, interval abstract interpretation with branch refinement for '
+                     'negative-offset subscripts, loop-exit typestate for the broadcast fan-out',
+        'text': 'Decides that each of the nine match keys is set by its setter, tested by the matcher with its '
+                'comparison primitive, compared by match_rule_equal and freed; that the parser stores a key only '
+                'after its grammar predicate accepted the whole value, the duplicate-key test and the length / arg '
+                'limits; that every n-c subscript in bus/signals.c is >= 0 on every path; that rules are swept from '
+                'every pool on disconnect/become-monitor; that AddMatch is undone on failure and every broadcast '
+                'recipient is tried.',
+        'note': NOT_DECIDED_COMMON + 'Not decided: value-level matching semantics of each key, tokeniser quoting, '
+                'argN typing. The arg_lens non-negativity used by the interval proof is itself checked (writers of '
+                'BusMatchRule.arg_lens).',
+        'design': 'DESIGN.md section 3, C07',
+    },
 }
 
 NOT_APPLICABLE = {
